@@ -63,6 +63,10 @@ static void reschedule(int me) {
         int want = P.sched_t[g_step];
         if (want >= 0 && want < g_nt && enabled(want)) next = want; else g_mismatch = 1;
     }
+    if (next < 0 && P.choose) {
+        int const want = P.choose(g_step, me, en, n);
+        if (want >= 0 && want < g_nt && enabled(want)) next = want;
+    }
     if (next < 0) {
         if (P.policy == ZV_POLICY_NOPREEMPT) next = enabled(me) ? me : en[0];
         else if (enabled(me) && (int)(rnd() % 100) < P.stay_pct) next = me;
